@@ -552,15 +552,7 @@ public:
 		MemManager memManager = MemManager())
 		: HashSet(hashTraits, std::move(memManager))
 	{
-		try
-		{
-			Insert(items);
-		}
-		catch (...)
-		{
-			pvDestroy();
-			throw;
-		}
+		Insert(items);
 	}
 
 	HashSet(HashSet&& hashSet) noexcept
@@ -595,19 +587,11 @@ public:
 			++logBucketCount;
 		}
 		mBuckets = Buckets::Create(GetMemManager(), logBucketCount, nullptr);
-		try
+		for (const Item& item : hashSet)
 		{
-			for (const Item& item : hashSet)
-			{
-				size_t hashCode = hashTraits.GetHashCode(ItemTraits::GetKey(item));
-				pvAddNogrow<false>(*mBuckets, hashCode,
-					Creator<const Item&>(GetMemManager(), item));
-			}
-		}
-		catch (...)
-		{
-			pvDestroy();
-			throw;
+			size_t hashCode = hashTraits.GetHashCode(ItemTraits::GetKey(item));
+			pvAddNogrow<false>(*mBuckets, hashCode,
+				Creator<const Item&>(GetMemManager(), item));
 		}
 	}
 
